@@ -187,6 +187,14 @@ def lensObj (ss : Session) (focal : FocalSpecGrid) (cheaper mat emu : Bool) : Op
       { py := py, px := px, focal := fg, focalLength := ss.focalLength.eval,
         plan := fun lam => planOf (ss.instanceAt lam) focal cheaper mat, emu := emu }
 
+/-- **the object after a history of `prop.focal_length = g` assignments**: the executed setter applied to the object
+built for the constructor argument; each assignment installs the plans of the new focal length (cache cleared) -/
+def lensObjAfter (ss0 : Session) (sets : List FocalSpec) (focal : FocalSpecGrid) (cheaper mat emu : Bool) :
+    Option (LensProp Rat) :=
+  (lensObj ss0 focal cheaper mat emu).map fun P0 =>
+    sets.foldl (fun P g => P.setFocalLength g.eval
+      (fun lam => planOf ((ss0.setFocalLength g).instanceAt lam) focal cheaper mat)) P0
+
 /-- a wavefront whose tensor component `t` is `amp_t` times the unit impulse at sample `(iy_t, ix_t)` -/
 def impulseWf (comps : List (Nat × Nat × Rat)) (lam : Rat) (stokes : Option (Rat × Rat × Rat × Rat)) :
     Wf Nat Rat PSum :=
